@@ -90,9 +90,11 @@ AttrCasesAll ==
       rename |-> (IF a.id = "rename_identity" THEN s ELSE a.rename), skip |-> a.skip]
         : r \in AllRules, s \in AttrIdentsF, a \in AttrCases}
     \cup
+    \* (vkind: the variant carries no data, a tuple, or named fields - its NAME follows the variant rule all the same)
     {[kind |-> "variant", rule |-> r, ident |-> s, attr |-> a.id, alist |-> <<>>, hasRename |-> a.hasRename,
-      rename |-> (IF a.id = "rename_identity" THEN s ELSE a.rename), skip |-> a.skip]
-        : r \in AllRules, s \in AttrIdentsV, a \in {x \in AttrCases : x.onVariant}}
+      rename |-> (IF a.id = "rename_identity" THEN s ELSE a.rename), skip |-> a.skip, vkind |-> vk]
+        : r \in AllRules, s \in AttrIdentsV, a \in {x \in AttrCases : x.onVariant} \cup {[id |-> "none", hasRename |-> FALSE, rename |-> <<>>, skip |-> FALSE, onVariant |-> TRUE]},
+          vk \in {"unit", "tuple", "struct"}}
     \cup AttrListCases
 
 \* ---- C04: parameter names (snake_case incl. digits, leading / trailing / double underscores, raw)
